@@ -1895,6 +1895,8 @@ class Engine:
             if cdef is not None and cdef in prog.bodies:
                 return self.inline_closure(fr, bb, st, t, cdef, args, (droot, dpath, dti), ev)
         if kind == "direct" and len(targets) == 1 and targets[0] not in self.no_inline and fr.depth < self.max_depth:
+            for h in self.call_hooks:
+                h(self, st, fr, bb, base, args, ev, t)
             callee = prog.bodies[targets[0]]
             if any(f[1] == callee.path for f in fr.id if isinstance(f, tuple) and len(f) > 1 and f[0] == "call"):
                 self.warnings.append(("recursion-cut", callee.path))
@@ -1954,7 +1956,18 @@ class Engine:
         """opaque result; havoc everything reachable through &mut arguments"""
         droot, dpath, dti = dest
         node = (fr.id, bb)
-        argvals = tuple(a[0].get((), ("agg", tuple(sorted((repr(k), v) for k, v in a[0].items())))) for a in args)
+        argvals = []
+        for a in args:
+            v0 = a[0].get(())
+            if v0 is None:
+                argvals.append(("agg", tuple(sorted((repr(k), v) for k, v in a[0].items()))))
+            elif v0[0] == "r" and "E" not in v0[2]:
+                # provenance through references: what the reference points to, when that is itself a term
+                pv = st.store.get(v0[1], {}).get(v0[2])
+                argvals.append(("ref", v0, pv) if pv is not None and pv[0] == "t" else v0)
+            else:
+                argvals.append(v0)
+        argvals = tuple(argvals)
         site = (fr.id, bb)
         if self.record:
             self.unmodelled[base] = self.unmodelled.get(base, 0) + 1
